@@ -183,6 +183,26 @@ def pollOracleArr (net : Nat) (base : PState) (pre : Store) (afterNext : Nat) (a
         | none => some s!"POLL-ADVANCE NextInstance {afterNext} is not between the catch-up point {base.next} and the end of the stored certificates"
         | some (_, t) => if t != afterTable then some s!"POLL-ADVANCE PowerTable is not the table of instance {afterNext} after the stored certificates" else none
 
+/-- How many requests one `Poll` may send to a scripted peer, by the rule the property states ("classifies the
+peer accordingly"): every response is judged on its own — a failure, an illegal or unstorable certificate, a
+response that brings the poller up to the advertised pending instance, or a response that carries no certificate
+while advertising more, ends the poll. -/
+def pollRequests (net : Nat) (respond : Nat → Nat → Resp) : Nat → Nat → PState → Nat
+  | 0, n, _ => n
+  | fuel + 1, n, st =>
+    match catchUp st with
+    | none => n
+    | some st =>
+      match respond n st.next with
+      | .fail => n + 1
+      | .ok pending items =>
+        match pollCerts net st {} (clientRecv st.next maxRequestLength 0 items) with
+        | (st', res', .cont) =>
+          if pending ≤ st'.next then n + 1
+          else if res'.received = 0 then n + 1
+          else pollRequests net respond fuel (n + 1) st'
+        | _ => n + 1
+
 def checkPoll (st : St) (pid : Nat) (respond : Nat → Nat → Resp) (status : String) (received new : Nat)
     (internal : Bool) (next : Nat) (table : Table) (certs : List Cert) (arrivals : List Cert := []) : St × Verdict :=
   match st.pollers.get? pid with
@@ -292,6 +312,20 @@ def step (st : St) (line : String) : St × Verdict :=
         else some (st, .diff "store rejects a certificate the model stores")
       | .error _ => if res = "ok" then some (st, .diff "store accepts a certificate the model rejects") else some (st, .ok "pput_err")
     r.getD (st, .bad "pput line")
+  | ["poll", pid, "script", script, "=>", status, received, new, internal, next, table, cs, reqs] =>
+    let r : Option (St × Verdict) := do
+      let script ← if script = "-" then some [] else (script.splitOn "~").mapM (resp? st)
+      let n ← (reqs.dropPrefix? "reqs=").bind (·.toString.toNat?)
+      let ps ← st.pollers.get? (← pid.toNat?)
+      let allowed := pollRequests st.net (scriptResponder script) 2000 0 ps
+      let (st', v) := checkPoll st (← pid.toNat?) (scriptResponder script) status (← received.toNat?) (← new.toNat?)
+        (← parseBool? internal) (← next.toNat?) (← table? table) (← st.certList cs)
+      some (match v with
+        | .oracle m => (st', .oracle m)
+        | v => if n > allowed then
+                 (st', .oracle s!"POLL-SPIN the peer was asked {n} times in one poll; a response that carries no certificate while advertising more ends the poll (failed), which allows {allowed} request(s) for this script")
+               else (st', v))
+    r.getD (st, .bad "poll line")
   | ["poll", pid, "script", script, "=>", status, received, new, internal, next, table, cs] =>
     let r : Option (St × Verdict) := do
       let script ← if script = "-" then some [] else (script.splitOn "~").mapM (resp? st)
